@@ -19,7 +19,12 @@ META = {
             "is tied to the code by running, in one process, generated Ego programs, service requests (ServiceHandler) "
             "and the child-process helpers with every exit path and comparing the live goroutines per site at every probe "
             "point and at the end with the model; the model-free oracle is the goroutine dump diff / runtime.NumGoroutine "
-            "returning to its baseline.",
+            "returning to its baseline. SEARCHED ONLY (no model): the background workers a server starts on demand while "
+            "it handles requests (per-class cache expiration scanners, rate-limit pruner, transaction reaper, database "
+            "handles): the real route table is driven with request sequences that purge and refill every cache class "
+            "(admin cache flush of all / one class, user / DSN / table-DDL invalidation, revocation flush, cluster "
+            "invalidate) repeated W+N+N times within one scan interval; the number of live goroutines per creating "
+            "function must not grow with the number of repetitions (class goroutine-growth:<creator>).",
     "note": "partial: the pairing logic is proved; that a goroutine whose stop event fired actually exits (Go scheduler, "
             "select/close semantics, os/exec Wait returning once the process is gone) is OBSERVED by the harness, not "
             "proved. trusted: Lean kernel; tools/extract_c09 and its fact definitions (lexical/path analysis documented in "
@@ -97,7 +102,8 @@ theorem gen_repeat (xs : List (Prog × Exit)) : owned (execAll (tableOf genSites
 
 
 def run(ctx):
-    ctx.trusted += ["translator tools/extract_c09 (go/ast, fails closed on unknown go sites)",
+    ctx.trusted += ["harness internal/commands/zz_verif_c09_server_test.go (request sequences, goroutines per creator; no model)",
+                    "translator tools/extract_c09 (go/ast, fails closed on unknown go sites)",
                     "harness internal/server/services/zz_verif_c09_test.go + egodriver C09",
                     "Go runtime goroutine dump (runtime.Stack) as the observation of live goroutines"]
     ctx.assumptions += ["a goroutine whose stop event fired exits (observed within a bounded settle loop, not proved)",
@@ -133,13 +139,23 @@ def run(ctx):
         ctx.log(out[-3000:])
         ctx.broken.append("harness TestVerifC09 failed to run (rc=%d)" % rc)
     ctx.log("harness done")
+    # server side: request sequences that purge and refill cache classes, goroutines per creating function
+    rc, out = ctx.go_test("./internal/commands/", "TestVerifC09Server", timeout=3000, extra=["-trimpath"])
+    if rc != 0:
+        ctx.log(out[-3000:])
+        ctx.broken.append("harness TestVerifC09Server failed to run (rc=%d)" % rc)
+    ctx.log("server harness done")
     cases = ctx.read_jsonl("c09_cases.jsonl")
     hdr = [{"in": h, "impl": "ok"} for h in header]
     ctx.correspond(hdr + cases, label="live goroutines per site (probes + end) vs lifecycle model")
-    for f in ctx.read_jsonl("c09_failures.jsonl"):
+    for f in ctx.read_jsonl("c09_failures.jsonl") + ctx.read_jsonl("c09_failures_server.jsonl"):
         ctx.fail(f["class"], f["what"], input=f.get("input"), got=f.get("got"), want=f.get("want"))
     st = (ctx.read_jsonl("c09_stats.json") or [{}])[0]
     c = st.get("counters", {})
+    sst = (ctx.read_jsonl("c09_stats_server.json") or [{}])[0]
+    sc = sst.get("counters", {})
+    if sc.get("sequences", 0) < 20 or sc.get("refill_cycles.schema", 0) < 30:
+        ctx.broken.append("server harness exercised too little: %s" % sc)
     ctx.coverage.update({
         "evaluations": len(cases),
         "distinct_nontrivial": c.get("distinct_nontrivial", 0),
@@ -154,5 +170,12 @@ def run(ctx):
                 "a goroutine or an abnormal exit; distinct by history line",
         "samples": st.get("samples", []),
         "counters": c,
+        "server_sequences": {"rule": "request sequences against the real route table (database-backed user/DSN stores): a fixed corpus, "
+                                     "simplest first (one purge of one cache class + one request that refills it, flush-all, "
+                                     "cluster invalidate of each class, DDL, user/DSN update, failed logins, console session, "
+                                     "transaction begin/rollback, double purge), then random mixes of purging and refilling "
+                                     "requests; each repeated W+N+N times; goroutines grouped by creating function after settling",
+                             "counters": sc, "samples": sst.get("samples", []),
+                             "requests": [r.get("status_request") for r in ctx.read_jsonl("c09_requests_server.jsonl")]},
     })
     return ctx.finish(level="partial")
